@@ -70,6 +70,10 @@ def metrics_einsums(draw, n_min=1, n_max=1, max_vars=3, allow_partition=True):
             if allow_partition and len(part_info) == 1 and r in carried and draw(st.integers(0, 3)) == 0:
                 k = draw(st.integers(1, 2))
                 dirs = ["uniform_shape(%d)" % draw(st.integers(1, 4)) for _ in range(k)]
+                if draw(st.integers(0, 2)) == 0:
+                    # an occupancy (dynamic) level, alone or beneath one shape level
+                    leaders = gen.holders(expr, r.lower())
+                    dirs = dirs[:k - 1] + ["uniform_occupancy(%s.%d)" % (draw(st.sampled_from(leaders)), draw(st.integers(1, 3)))]
                 parts.append([r, dirs])
                 groups.append(gen.levels_of(r, k))
             else:
@@ -200,11 +204,14 @@ def hardware_for(draw, spec, configs=("accel",), force=None):
                 if len(hs) == 2:
                     cand.append((r, hs))
             if cand:
-                r, hs = draw(st.sampled_from(cand))
-                b = {"rank": r}
-                if isect_type == "leader-follower":
-                    b["leader"] = draw(st.sampled_from(hs))
-                entry.append({"component": names["isect"], "bindings": [b]})
+                chosen = list(draw(st.permutations(cand)))[:draw(st.sampled_from([1, 2, 2]))]
+                bl = []
+                for r, hs in chosen:
+                    b = {"rank": r}
+                    if isect_type == "leader-follower":
+                        b["leader"] = draw(st.sampled_from(hs))
+                    bl.append(b)
+                entry.append({"component": names["isect"], "bindings": bl})
         if has_seq and lo and draw(st.booleans()):
             rs = draw(gen.subset(lo, min_size=1))
             entry.append({"component": names["seq"], "bindings": [{"rank": r} for r in rs]})
